@@ -114,9 +114,9 @@ var _ = memory.NewSparse
 var _ = big.NewInt
 
 func TestC05(t *testing.T) {
-	col := ev.New("C05", "rapid: valid programs of 1-4 blocks of 2-9 synthetic variable-length instructions (registers, two "+
+	col := ev.New("C05", "rapid: (2/3) valid programs of 1-4 blocks of 2-9 synthetic variable-length instructions (registers, two "+
 		"memories with addresses in a 25-byte window so accesses alias, type flags, terminating jumps, fall-through-only ip "+
-		"writers); a random history of 1-12 instruction moves (aimed at the reported bounds) and block moves is applied to "+
+		"writers), (1/3) generated RV64IMA programs lifted by the real front end; a random history of 1-12 instruction moves (aimed at the reported bounds) and block moves is applied to "+
 		"one copy of the code; original and reordered block are executed by the real emulator from the block start with "+
 		"identical pre-populated registers and a deterministic state provider, and the final registers (incl. instruction "+
 		"pointer = control transfer) and memory are compared. non-trivial = >=1 accepted move of an instruction that shares "+
@@ -125,18 +125,41 @@ func TestC05(t *testing.T) {
 
 	rapid.Check(t, func(t *rapid.T) {
 		col.Case()
-		if rapid.Bool().Draw(t, "sparseDeps") {
-			synthTune(8, 30)
-		} else {
-			synthTune(4, 14)
-		}
-		p := drawProgram(t, 4, 9)
-		synthTune(4, 14)
-		orig := buildCode(t, p)
-		moved := buildCode(t, p)
+		var orig, moved *deps.Code
+		var p fmt.Stringer
 		byAddr := map[uint64]*sIns{}
-		for _, s := range p.ins {
-			byAddr[s.addr] = s
+		realCode := uniformInt(t, 3, "realRiscvCode") == 0
+		if realCode {
+			// blocks of really lifted RV64IMA instructions
+			rp := drawRVProgram(t, 24)
+			var err1, err2 error
+			orig, err1 = buildRVCode(rp)
+			moved, err2 = buildRVCode(rp)
+			if err1 != nil || err2 != nil {
+				t.Fatalf("cannot build code model: %v %v\n  program %s", err1, err2, rp)
+			}
+			for _, b := range orig.Blocks() {
+				for _, in := range b.Instructions() {
+					d := &sIns{addr: uint64(in.OrigAddr()), effects: in.Effects(), length: int(in.Len())}
+					d.describe()
+					byAddr[d.addr] = d
+				}
+			}
+			p = rp
+		} else {
+			if rapid.Bool().Draw(t, "sparseDeps") {
+				synthTune(8, 30)
+			} else {
+				synthTune(4, 14)
+			}
+			sp := drawProgram(t, 4, 9)
+			synthTune(4, 14)
+			orig = buildCode(t, sp)
+			moved = buildCode(t, sp)
+			for _, s := range sp.ins {
+				byAddr[s.addr] = s
+			}
+			p = sp
 		}
 
 		// history
@@ -216,6 +239,15 @@ func TestC05(t *testing.T) {
 			}
 		}
 
+		if realCode {
+			for r := 1; r < 32; r++ {
+				regs[expr.Key(fmt.Sprintf("x%d", r))] = drawRegVal(t, 64, "xreg")
+			}
+			regs["x8"], regs["x9"] = rvDataBase, rvDataBase+8
+			col.Class("real-riscv-code")
+		} else {
+			col.Class("synthetic-code")
+		}
 		for _, ob := range orig.Blocks() {
 			mb, _ := moved.Address(ob.Begin())
 			want, tr1 := c05Run(orig, ob, regs, seed)
